@@ -122,7 +122,7 @@ class ByteMem:
 class World:
     """one symbolic machine state on one path"""
 
-    FIELDS = ("pc", "mem", "storage", "transient", "trace", "retdata", "retsize", "env", "fresh", "imm")
+    FIELDS = ("pc", "mem", "storage", "transient", "trace", "retdata", "retsize", "env", "ncalls", "ngas", "imm", "writes")
 
     def __init__(self, **kw):
         for f in self.FIELDS:
@@ -150,6 +150,8 @@ class Env:
         self.transient0 = z3.Array("transient0" + t, W, W)
         self.imm0 = z3.Array("immutables" + t, W, B8)  # data section of the running code (immutables)
         self.scalars = {}
+        self.snapshot_at_calls = False  # True: call/create events carry the persistent state at the moment of the call
+        self.reentrancy_havoc = False  # True: persistent state after a call/create is arbitrary (callee may re-enter)
         self.code = code  # concrete bytes of the running code, when known
         self.tag = t
         self.extcodesize = z3.Function("extcodesize" + t, W, W)
@@ -174,7 +176,7 @@ class Env:
 
     def initial_world(self):
         return World(pc=z3.BoolVal(True), mem=ByteMem(self.mem0), storage=self.storage0, transient=self.transient0, trace=(),
-                     retdata=z3.K(W, z3.BitVecVal(0, 8)), retsize=BV(0), env=self, fresh=[0], imm=self.imm0)
+                     retdata=z3.K(W, z3.BitVecVal(0, 8)), retsize=BV(0), env=self, ncalls=0, ngas=0, imm=self.imm0, writes=())
 
 
 _KECCAK = {}
@@ -254,11 +256,10 @@ def exec_op(op, a, w):
     if op in ENV_SCALARS:
         return env.scalar(op), w
     if op == "gas":
-        w.fresh[0] += 1
-        return z3.BitVec(f"gas!{w.fresh[0]}{env.tag}", 256), w
+        # remaining gas is configuration dependent: every read is a fresh unconstrained word (numbered per path)
+        return z3.BitVec(f"gas!{w.ngas + 1}{env.tag}", 256), w.replace(ngas=w.ngas + 1)
     if op == "msize":
-        w.fresh[0] += 1
-        return z3.BitVec(f"msize!{w.fresh[0]}{env.tag}", 256), w
+        return z3.BitVec(f"msize!{w.ngas + 1}{env.tag}", 256), w.replace(ngas=w.ngas + 1)
     if op == "pc":
         raise Unsupported("pc")
     if op == "balance":
@@ -311,27 +312,33 @@ def exec_op(op, a, w):
         else:
             gas, to, ao, al, ro, rl = a
             value = BV(0)
-        w.fresh[0] += 1
-        k = f"!{w.fresh[0]}{env.tag}"
+        k = f"!{w.ncalls + 1}{env.tag}"  # the i-th outgoing call on this path: same adversary in every compared program
         ok = z3.BitVec("call_ok" + k, 256)
         rsize = z3.BitVec("call_retsize" + k, 256)
         rdata = z3.Array("call_retdata" + k, W, B8)
         ev = (op, bv(gas), bv(to), bv(value), retbytes(w, ao, al))
+        if env.snapshot_at_calls:
+            ev = ev + ({"storage": w.storage, "transient": w.transient, "pc": w.pc},)
         # adversarial callee: success flag 0/1, any return data; storage may be changed by re-entrancy on `call`
-        w2 = w.replace(trace=w.trace + (ev,), retdata=rdata, retsize=rsize)
-        if op != "staticcall":
-            w2 = w2.replace(storage=z3.Array("storage_after_call" + k, W, W)) if w.env.scalars.get("__reentrant_storage__") else w2
+        w2 = w.replace(trace=w.trace + (ev,), retdata=rdata, retsize=rsize, ncalls=w.ncalls + 1)
+        if op != "staticcall" and env.reentrancy_havoc:
+            # the callee may re-enter and change persistent state
+            w2 = w2.replace(storage=z3.Array("storage_after_call" + k, W, W), transient=z3.Array("transient_after_call" + k, W, W))
         # copy min(rl, rsize) bytes of return data to memory
         cnt = z3.If(z3.ULT(rsize, bv(rl)), rsize, bv(rl))
         w2 = w2.replace(mem=w2.mem.copy_from(bv(ro), lambda i: z3.Select(rdata, i), cnt), pc=z3.And(w2.pc, z3.Or(ok == 0, ok == 1)))
         return ok, w2
     if op in ("create", "create2"):
-        w.fresh[0] += 1
-        k = f"!{w.fresh[0]}{env.tag}"
+        k = f"!{w.ncalls + 1}{env.tag}"
         addr = z3.BitVec("created" + k, 256)
         ev = (op, bv(a[0]), retbytes(w, a[1], a[2])) + ((bv(a[3]),) if op == "create2" else ())
-        return addr, w.replace(trace=w.trace + (ev,), retsize=z3.BitVec("create_retsize" + k, 256), retdata=z3.Array("create_retdata" + k, W, B8),
-                               pc=z3.And(w.pc, z3.ULT(addr, BV(2**160))))
+        if env.snapshot_at_calls:
+            ev = ev + ({"storage": w.storage, "transient": w.transient, "pc": w.pc},)
+        w2 = w.replace(trace=w.trace + (ev,), retsize=z3.BitVec("create_retsize" + k, 256), retdata=z3.Array("create_retdata" + k, W, B8),
+                       pc=z3.And(w.pc, z3.ULT(addr, BV(2**160))), ncalls=w.ncalls + 1)
+        if env.reentrancy_havoc:
+            w2 = w2.replace(storage=z3.Array("storage_after_call" + k, W, W), transient=z3.Array("transient_after_call" + k, W, W))
+        return addr, w2
     if op == "return":
         raise Halt("return", w, retbytes(w, a[0], a[1]))
     if op == "revert":
